@@ -593,6 +593,7 @@ class HistoryLikeFresh(Contract):
     target = "dimarray.core.dimarraycls:DimArray"
     props = ("C05",)
     native_only = True
+    enumeration_cap = {"quick": 20000, "thorough": 150000}      # attempts per producer (each evaluation runs 14 consumers twice)
 
     def cases(self, tier):
         import numpy as np
